@@ -38,6 +38,8 @@ pub enum Op {
     NewEpoch,
     /// 0 = Off, 1 = Error, 2 = Warn, 3 = Debug, 4 = Trace
     LoggerLevel { level: u8 },
+    /// the process environment changes: every variable the library may ask for gets a new answer
+    EnvChange,
 }
 
 impl Op {
@@ -53,6 +55,7 @@ impl Op {
             Op::SwitchThread { .. } => "SwitchThread",
             Op::NewEpoch => "NewEpoch",
             Op::LoggerLevel { .. } => "LoggerLevel",
+            Op::EnvChange => "EnvChange",
         }
     }
 
@@ -69,6 +72,7 @@ impl Op {
             Op::SwitchThread { t } => json!({"op":"SwitchThread","t":t}),
             Op::NewEpoch => json!({"op":"NewEpoch"}),
             Op::LoggerLevel { level } => json!({"op":"LoggerLevel","level":level}),
+            Op::EnvChange => json!({"op":"EnvChange"}),
         }
     }
 
@@ -105,6 +109,7 @@ impl Op {
             "SwitchThread" => Op::SwitchThread { t: us("t")? },
             "NewEpoch" => Op::NewEpoch,
             "LoggerLevel" => Op::LoggerLevel { level: us("level")? as u8 },
+            "EnvChange" => Op::EnvChange,
             other => return Err(format!("unknown op {other}")),
         })
     }
@@ -564,6 +569,7 @@ pub fn level_filter(level: u8) -> log::LevelFilter {
 /// Execute one scenario against the real library.
 pub fn execute(sc: &Scenario) -> Outcome {
     let env = seam::new_env(sc.clock_start.clamp(seam::CLOCK_FLOOR, seam::CLOCK_CEIL));
+    env.lock().unwrap().env_seed = sc.hash_seed;
     let mut callers: Vec<Option<Caller>> = (0..MAX_THREADS).map(|_| None).collect();
     let mut epoch: u64 = 0;
     let mut spawned: u64 = 0;
@@ -622,6 +628,12 @@ pub fn execute(sc: &Scenario) -> Outcome {
             Op::LoggerLevel { level } => {
                 log::set_max_level(level_filter(*level));
                 fired.add("logger_flip", 1);
+                obs.push((idx, Obs::Nothing));
+                continue;
+            }
+            Op::EnvChange => {
+                env.lock().unwrap().env_epoch += 1;
+                fired.add("environment_change", 1);
                 obs.push((idx, Obs::Nothing));
                 continue;
             }
@@ -704,6 +716,7 @@ pub fn execute(sc: &Scenario) -> Outcome {
         fired.add("hash_key_draws", st.getrandom_calls);
         fired.add("in_call_clock_ticks", st.in_call_ticks);
         fired.add("in_call_clock_back_steps", st.in_call_back_steps);
+        fired.add("environment_reads_served", st.env_reads_total);
     }
     fired.add("caller_threads_spawned", spawned);
     let mut d = crate::rng::Digest::new();
